@@ -106,6 +106,27 @@ Definition enc_resp (via_port : bool) (r : cstate) : list N :=
   | CResolved RListenerGone => if via_port then [4] else [2]
   end.
 
+(** Requests that are dropped together (with the listener, with a receiver) are refused by one helper task each; the order
+    in which those tasks run is not part of any property: maximal runs of [Rejected] messages are compared sorted by port. *)
+Definition rej_port (x : Wire.msg * option N) : option N :=
+  match fst x with Rejected c _ => Some c | _ => None end.
+Fixpoint ins_rej (x : Wire.msg * option N) (k : N) (run : list (Wire.msg * option N)) : list (Wire.msg * option N) :=
+  match run with
+  | [] => [x]
+  | y :: r => match rej_port y with
+              | Some k' => if k <=? k' then x :: y :: r else y :: ins_rej x k r
+              | None => x :: y :: r
+              end
+  end.
+Fixpoint canon_runs (l run : list (Wire.msg * option N)) : list (Wire.msg * option N) :=
+  match l with
+  | [] => run
+  | x :: r => match rej_port x with
+              | Some k => canon_runs r (ins_rej x k run)
+              | None => run ++ x :: canon_runs r []
+              end
+  end.
+
 (** the [k]-th key of an association list in insertion order is not kept by [insert]; handles are
     addressed by their local port number, requests by remote port *)
 Definition big (r : rs) (code : N) (args : list N) : rs * list N :=
@@ -159,8 +180,8 @@ Definition big (r : rs) (code : N) (args : list N) : rs * list N :=
   let new_msgs := skipn (rs_emitted r) (sent e2) in
   let mp' := extend_map mp new_msgs in
   let out :=
-    [200] ++ flat_map (fun x => msg_to_nums (rename_out mp' (fst x)) ++ [match snd x with Some n => n | None => 0 end; 201])
-                      (filter (fun x => match fst x with PortCredits _ _ | Ping => false | _ => true end) new_msgs) ++
+    [200] ++ flat_map (fun x => msg_to_nums (fst x) ++ [match snd x with Some n => n | None => 0 end; 201])
+                      (canon_runs (map (fun x => (rename_out mp' (fst x), snd x)) (filter (fun x => match fst x with PortCredits _ _ | Ping => false | _ => true end) new_msgs)) []) ++
     [202; status e2] ++
     match code with
     | 1 => match lookup (rs_nreq r) (connects e2) with Some c => enc_resp false c | None => [9] end
